@@ -173,6 +173,31 @@ namespace
         }
     };
 
+    // an EMPTY allocator type that declares itself stateful (its state lives elsewhere: here a bump region shared
+    // by all objects of the type, deliberately without any synchronisation of its own): it needs the mutex
+    struct esleaf
+    {
+        using is_stateful = std::true_type;
+        static char*& cur()
+        {
+            static char  region[1 << 20];
+            static char* c = region;
+            return c;
+        }
+        void* allocate_node(std::size_t sz, std::size_t)
+        {
+            Scope s("allocate_node");
+            char* p = cur();
+            cur()   = p + ((sz + 15) / 16) * 16;
+            return p;
+        }
+        void deallocate_node(void*, std::size_t, std::size_t) noexcept
+        {
+            Scope s("deallocate_node");
+        }
+    };
+    static_assert(std::is_empty<esleaf>::value, "");
+
     // ---- uniform access to the storage under test ---------------------------------------------
     struct IStore
     {
@@ -462,6 +487,8 @@ namespace
             st.reset(new Store<fm::allocator_storage<fm::any_reference_storage, imutex>>(leaf));
         else if (kind == "stateless")
             st.reset(new Store<fm::allocator_storage<fm::direct_storage<sleaf>, imutex>>(sleaf{}));
+        else if (kind == "emptystateful")
+            st.reset(new Store<fm::allocator_storage<fm::direct_storage<esleaf>, imutex>>(esleaf{}));
         // what the factory functions build (whatever type that is): with the instrumented mutex, and with the
         // library's default mutex, whose locking shows only in what happens inside the leaf
         else if (kind == "factory_m")
